@@ -82,6 +82,7 @@ def prepare(release=False):
                        "assemble": {"operand_arms": []}, "variants": rp["variants"]}, {"storage_index_type": "u32"},
                       "RefParams", "ref/params.json")
     p.loader_failures = gen_coq.gen_loader(facts["loader"], "LoaderData", "rspirv/dr/loader.rs via rs2coq")
+    p.lift_failures = gen_coq.gen_lift(facts.get("lift"), "LiftData", "rspirv/lift/autogen_context.rs via rs2coq")
     gen_coq.gen_traverse(facts["traverse"], "TraverseData", "rspirv/dr/constructs.rs, rspirv/binary/assemble.rs via rs2coq")
     if p.dump_spirv is not None:
         gen_coq.gen_spirv_dump(p.dump_spirv, "DumpSpirv")
